@@ -20,7 +20,7 @@ def lockedFact (name : String) : Gen.LockedFact :=
   match Gen.lockedFacts.find? (fun f => f.name == name) with
   | some f => f
   | none => { name := name, usesLock := false, readLock := false, deferUnlock := false, inlineUnlock := false,
-              recovers := false, recoverUnlocks := false, repanics := false, wrappedCall := "" }
+              recovers := false, recoverUnlocks := false, repanics := false, wrappedCall := "", gatesGetEnd := false }
 
 def isPanic {α} (r : HRes α) : Bool :=
   match r with
@@ -58,7 +58,12 @@ def lockedGetLoop (f : Gen.LockedFact) (bits : Nat) (sub : GetCmd → OProg (HRe
     let subreq : GetCmd := { keys := [k], noopOpaque := if last then g.noopOpaque else 0, noopEnd := if last then g.noopEnd else false }
     let s := stripeOf bits k.key
     if f.usesLock then Prog.out (.acquire s f.readLock)
-    let r ← sub subreq
+    -- the responder handed to the wrapped orchestrator holds the end-of-get marker back for
+    -- every key but the last
+    let isGetEnd : OEv → Bool := fun e => match e with
+      | .resp (.getEnd _ _) => true
+      | _ => false
+    let r ← if f.gatesGetEnd && !last then Prog.filterEmit (fun e => !isGetEnd e) (sub subreq) else sub subreq
     if isCrash r then pure r
     else if isPanic r then
       if f.usesLock && (f.deferUnlock || (f.recovers && f.recoverUnlocks)) then Prog.out (.release s f.readLock)
